@@ -16,7 +16,7 @@ Definition select_wrappers : list string :=
   ["SelectSelectBuilder"; "SelectDistinctBuilder"; "SelectJsonSelectBuilder"; "FromSelectBuilder";
    "JoinSelectBuilder"; "GroupyBySelectBuilder"; "CombinationBuilder"; "OrderBySelectBuilder";
    "ForSelectBuilder";
-   "OnConflictDoUpdateInsertBuilder"; "ReturningInsertBuilder";
+   "OnConflictInsertBuilder"; "OnConflictDoUpdateInsertBuilder"; "ReturningInsertBuilder";
    "FromUpdateBuilder"; "ReturningUpdateBuilder";
    "FromDeleteBuilder"; "ReturningDeleteBuilder";
    "OrderByAggExpBuilder"].
